@@ -174,3 +174,15 @@ Theorem C05_example_forged_packets_dropped :
   delivers_unauthentic (w_cfg true true true) w_echo = false.
 Proof. exact example_forged_packets_dropped_stmt. Qed.
 Print Assumptions C05_example_forged_packets_dropped.
+
+(* the stronger reading "a packet failing any conjunct changes NO query, cache or server state"
+   does not hold for datagrams that do not parse: from the server's address they close the
+   connection, mark the server failed and cost every query on it one try (no data is supplied:
+   C05_malformed_no_data) *)
+Theorem C05_forgery_inert_refuted_for_malformed_datagrams :
+  exists tr st,
+    run_trace (w_cfg true true true) (init_chan w_servers) w_malformed = Ok (tr, st) /\
+    map (fun x => snd x) (skipn 3 tr) = [[OServerFail 0 9; OConnError 10]] /\
+    map q_try (ch_queries st) = [1] /\ map q_conn (ch_queries st) = [None] /\ ch_conns st = [].
+Proof. exact malformed_not_inert_stmt. Qed.
+Print Assumptions C05_forgery_inert_refuted_for_malformed_datagrams.
